@@ -80,7 +80,7 @@ m("c06-qvality-sorted", "C06", "caught", PEPS, "    peps_in_input_order[np.argso
 m("c06-from-counts-unsorted-interp", "C06", "caught", Q, "    qvalues = np.interp(\n        scores, np.flip(scores_sorted), np.flip(qvalues_sorted)\n    )\n    return qvalues\n", "    qvalues = qvalues_sorted\n    return qvalues\n")
 # ---- C07
 m("c07-ge", "C07", "caught", BR, "    if feat_total > pred_total:", "    if feat_total > pred_total * 2:", "safety")
-m("c07-min-feat", "C07", "silent", BR, "        best_feat_idx, feat_total = max(\n            enumerate(map(itemgetter(1), best_feats)), key=itemgetter(1)\n        )", "        best_feat_idx, feat_total = min(\n            enumerate(map(itemgetter(1), best_feats)), key=itemgetter(1)\n        )", "safety")
+m("c07-min-feat", "C07", "caught", BR, "        best_feat_idx, feat_total = max(\n            enumerate(map(itemgetter(1), best_feats)), key=itemgetter(1)\n        )", "        best_feat_idx, feat_total = min(\n            enumerate(map(itemgetter(1), best_feats)), key=itemgetter(1)\n        )", "safety")
 m("c07-descs-true", "C07", "caught", BR, "        descs = [desc] * len(psms)", "        descs = [True] * len(psms)", "safety")
 m("c07-labels-unconverted", "C07", "caught", DS, "    df = utils.convert_targets_column(df, target_column)\n    return _update_labels(\n        scores=scores,\n        targets=df[target_column],\n        eval_fdr=eval_fdr,\n        desc=desc,\n    )\n", "    return _update_labels(\n        scores=scores,\n        targets=df[target_column],\n        eval_fdr=eval_fdr,\n        desc=desc,\n    )\n", "safety")
 m("c07-best-feat-first-dir", "C07", "caught", DS, "            if num_passing > best_positives:\n                best_positives = num_passing\n                best_feat = feat_idx\n                new_labels = self._update_labels(", "            if num_passing > best_positives and desc:\n                best_positives = num_passing\n                best_feat = feat_idx\n                new_labels = self._update_labels(", "safety")
